@@ -458,7 +458,7 @@ CLAIMED["C13"] = {
             "HTLC actions) were found by this check and repaired in /repo.",
     "note": "Which chain actions/resolvers a close yields is an input (C12); resolvers are staged scripts validated "
             "against persisted resolver bytes. Not modelled: exit-hop (invoice registry) received HTLCs, "
-            "checkpointForeignSpend, legacy nursery paths, taproot, sweeper persistence, reorgs, DB write errors other "
+            "checkpointForeignSpend, taproot, sweeper persistence, reorgs, DB write errors other "
             "than the stop. The whole-channel model runs a received-HTLC resolver as the staged script of the branch the "
             "scenario's environment selects; that the real resolver is always a state of one of the two scripts is "
             "proved on the single-resolver machine (C13_incoming_refines_script). The environment advances only at "
@@ -870,5 +870,21 @@ _ADD8 = {
                           "switch, link and peer")],
 }
 for _pid, _items in _ADD8.items():
+    for _field, _txt in _items:
+        CLAIMED[_pid][_field] += " " + _txt
+
+_ADD9 = {
+    "C13": [("text", "Second stage (nursery): the real UtxoNursery on the real NurseryStore behind a stop-the-world wrapper, "
+                     "stops after every store transaction and after every block x blocks mined while down x notification "
+                     "order; every committed store transaction must change the decoded buckets exactly like the Coq store "
+                     "model; proved for all histories: PreschoolToKinder never files an output under a height already "
+                     "graduated (C13_nursery_pscl_class_after_best) and every kindergarten output whose class the nursery has "
+                     "reached has been offered (C13_nursery_pscl_offered). Refuted for late crib promotions "
+                     "(C13_nursery_crib_late_registration_refuted = known finding C13-F4)."),
+            ("note", "This lnd version does not hand commitment outputs to the nursery; the nursery's terminal outcome is "
+                     "removal of the channel from the nursery store."),
+            ("technique", "+ nursery-store bucket-placement correspondence and height-graduation invariant")],
+}
+for _pid, _items in _ADD9.items():
     for _field, _txt in _items:
         CLAIMED[_pid][_field] += " " + _txt
